@@ -16,7 +16,8 @@ import EmbitModel.Props.C02
   every cryptographic environment `Ops` (BIP32 derivation, public keys, hashes, taproot tweak, both signers are
   arbitrary functions). Where properties of the environment are needed they are explicit hypotheses:
   `OrderLaws` (Python's set iteration orders are permutations) and `SigLaws` (a signature verifies under the signer's
-  public key — what Props/C07 proves of the concrete signers relative to `EcLaws`).
+  public key — what Props/C07 proves of the concrete signers relative to `EcLaws`; discharged for the environment the
+  driver runs in Props/C02Y.lean).
   `signWith … = some (p', n, ws)`: `p'` the PSBT afterwards, `n` the returned counter, `ws` the (ghost) trace of ALL writes
   (every signature filed, also when the slot already held that very signature).
 -/
@@ -389,9 +390,8 @@ theorem view_stream_of_memory (O : Ops HD) (OL : OrderLaws O) (signer : Signer H
     obtain ⟨_, hb, _, _⟩ := viewSignWith_spec O OL signer auth p b n' q ws' hv
     exact ⟨ws', by rw [hb]⟩
 
--- GOAL (not proved): sigLaws_concrete — `SigLaws` for the `Ops` built from the C07 / C09 / C10 models relative to `EcLaws`
---   (composition of `private_key_sign_verifies`, `schnorr_correct_binding` with the SEC codec theorems of C10); until
---   then every added signature is also verified at run time by the independent Lean verifier (`sigcheck.*`).
+-- (`SigLaws` is proved of the environment built from the C07 / C09 / C10 models — the environment the driver runs — relative
+--  to the curve laws in Props/C02Y.lean: `sigLaws_concrete`, `added_sigs_valid_concrete`, `added_sigs_valid_standards`.)
 
 set_option maxRecDepth 100000
 
